@@ -5,6 +5,7 @@
 // tolerances per bucket of target bytes per frame: <5, <10, <20, <40, <80, >=80  (see calib/thresholds.json)
 #define CVBR_TOL_CELT 0.65, 0.42, 0.22, 0.12, 0.06, 0.05
 #define CVBR_TOL_SILK 2.40, 2.40, 2.40, 2.40, 2.40, 2.40
+#define CVBR_TOL_SWITCHING 0.16  /* worst 1.080 over 16 499 switching sessions */
 // SILK / hybrid cells: bitrate <= 12k, <= 16k, <= 24k, > 24k
 #define CVBR_SILK_NOHYB_T 2.60, 0.90, 0.42, 0.20
 #define CVBR_SILK_NOHYB_O 2.60, 0.66, 0.16, 0.10
@@ -28,6 +29,19 @@ struct LockstepExec {
   int mset(int req, int dflt) const { auto it = m_set.find(req); return it == m_set.end() ? dflt : it->second; }
   void settings_changed() { cvbr_close(); ms_prev_size = -1; seg_bits = 0; seg_secs = 0; seg_frames = 0; seg_mode_mask = 0; seg_warm = 0; seg_tonal_secs = 0; }
   double seg_warm = 0, seg_tonal_secs = 0;
+  // constrained VBR across bitrate changes (MDCT layer only, where a true bit reservoir carries the debt from one rate to the next):
+  // produced bits against the sum of the per-frame targets over a stretch in which only the bitrate changes
+  double cum_bits = 0, cum_target_bits = 0, cum_secs = 0, cum_warm = 0; long cum_switches = 0; bool cum_celt_only = true;
+  void cum_reset() { cum_close(); cum_bits = cum_target_bits = cum_secs = cum_warm = 0; cum_switches = 0; cum_celt_only = true; }
+  void cum_close() {
+    if (!check_rate || cum_secs < 5.0 || cum_switches < 4 || !cum_celt_only || cum_target_bits <= 0) return;
+    double ratio = cum_bits / cum_target_bits;
+    run.count("cvbr_switching_checked");
+    long milli = (long)(ratio * 1000); if (run.stat["max:cvbr_switching_ratio_milli"] < milli) run.stat["max:cvbr_switching_ratio_milli"] = milli;
+    if (getenv("OPSIM_CALIB")) fprintf(stderr, "CVBRCUM ratio=%.4f secs=%.2f switches=%ld mean_target=%.0f fs=%d ch=%d\n", ratio, cum_secs, cum_switches, cum_target_bits / cum_secs, S.enc.L.fs, S.enc.L.ch);
+    else if (ratio > 1.0 + CVBR_TOL_SWITCHING)
+      REPORT(run, prop, "cvbr_rate_exceeded_across_bitrate_changes_celt", "%.0f bits produced for %.0f requested over %.1f s and %ld bitrate changes (ratio %.3f > %.3f)", cum_bits, cum_target_bits, cum_secs, cum_switches, ratio, 1.0 + CVBR_TOL_SWITCHING);
+  }
   // constrained VBR: long-term mean rate over a constant-settings segment (>= 5 s after 1 s warm-up)
   void cvbr_close() {
     if (!check_rate || seg_secs < 5.0 || !S.enc.alive()) return;
@@ -76,6 +90,7 @@ struct LockstepExec {
     run.count("ctl_applied");
     if (S.frames_encoded > 0) run.fired = true;
     settings_changed();
+    if (req == OPUS_SET_BITRATE_REQUEST && val > 0) { if (cum_secs > 0 || cum_warm > 0) cum_switches++; } else cum_reset();
     m_set[req] = val;
     switch (req) {
       case OPUS_SET_BITRATE_REQUEST: {
@@ -180,6 +195,11 @@ struct LockstepExec {
           if (!plain) seg_tonal_secs += dur;
         }
       } else if (seg_secs > 0 || seg_warm > 0) settings_changed();
+      if (L.kind == K_SINGLE && m_vbr && m_cvbr && m_bitrate > 0 && max_bytes >= 1276) {
+        double dur = (double)expect / L.fs;
+        if (cum_warm < 1.0) cum_warm += dur;
+        else { cum_bits += 8.0 * ret; cum_target_bits += (double)m_bitrate * dur; cum_secs += dur; if (mode != 2) cum_celt_only = false; }
+      } else if (cum_secs > 0 || cum_warm > 0) cum_reset();
     }
     S.pos += expect; S.t48 += (int64_t)expect * 48000 / L.fs;
   }
@@ -235,7 +255,7 @@ struct LockstepExec {
   }
 
   bool do_op(const Op &op) {
-    if (op.k == "ENCNEW") { S.op_encnew(op, run); settings_changed(); m_bitrate = OPUS_AUTO; m_vbr = 1; m_cvbr = 1; m_dtx = 0; m_set.clear(); }
+    if (op.k == "ENCNEW") { cum_reset(); S.op_encnew(op, run); settings_changed(); m_bitrate = OPUS_AUTO; m_vbr = 1; m_cvbr = 1; m_dtx = 0; m_set.clear(); }
     else if (op.k == "DECNEW") S.op_decnew(op, run);
     else if (op.k == "SRC") S.op_src(op);
     else if (op.k == "CTL") op_ctl(op);
@@ -245,7 +265,7 @@ struct LockstepExec {
   }
   void run_plan(const Plan &p) {
     for (size_t i = 0; i < p.ops.size(); i++) { run.cur_op = (int)i; do_op(p.ops[i]); }
-    cvbr_close();
+    cvbr_close(); cum_close();
   }
 };
 
